@@ -329,6 +329,7 @@ func readComplete(g *core.Graph, info *types.Info, rc readCall, u *core.GNode) b
 // the committed `ckey` when the table carries one (written by `yfcheck -canontables` on the pinned tree), otherwise the
 // canonical form of `key` on the current tree. Lookups must use p.CanonKey(key).
 func loadExemptTable(p *core.Prog, name string) map[string]string {
+	exemptProg = p
 	out := map[string]string{}
 	b, err := os.ReadFile(filepath.Join(VerifDir, "tables", name))
 	if err != nil {
@@ -375,8 +376,43 @@ func exemptKey(table map[string]string, key string) (string, bool) {
 	if ck, ok := table["short:"+core.ShortKey(key)]; ok && ck != "" {
 		return ck, true
 	}
+	// the construct moved, unchanged, into a helper that the exempted function calls (split of a long function): an
+	// entry F#construct also covers G#construct when G is a function of the same package that F calls (directly or through
+	// one more helper)
+	if exemptProg != nil {
+		root := exemptProg.RootFuncOfKey(key)
+		if root != "" {
+			suffix := key[len(root):]
+			g := exemptProg.Fn(root)
+			for tk := range table {
+				if strings.HasPrefix(tk, "short:") {
+					continue
+				}
+				troot := exemptProg.RootFuncOfKey(tk)
+				if troot == "" || troot == root {
+					continue
+				}
+				ts := tk[len(troot):]
+				if ts != suffix && core.ShortKey(tk)[len(troot):] != core.ShortKey(key)[len(root):] {
+					continue
+				}
+				tf := exemptProg.Fn(troot)
+				if tf == nil || g == nil || tf.Pkg != g.Pkg {
+					continue
+				}
+				for _, callee := range pkgScope(exemptProg, tf, 2) {
+					if callee == g {
+						return tk, true
+					}
+				}
+			}
+		}
+	}
 	return "", false
 }
+
+// exemptProg is the program the exemption tables are matched against (set by loadExemptTable).
+var exemptProg *core.Prog
 
 var exemptNeeds = map[string][]string{}     // canonical key -> canonical texts a dominating guard must mention
 var exemptNeedsText = map[string][]string{} // the readable form, for messages
